@@ -4,7 +4,7 @@ import ast
 from ..model import AnalysisError, unparse, walk_local
 from ..paths import Evaluator, is_c, show, C, S, NONE, subterms
 from ..indexclass import ElemEval, Pos, classes, Undecided, spec_bin
-from .common import mk_algebra
+from .common import mk_algebra, as_method
 from . import l1
 from .c10 import _decode_coo
 
@@ -126,6 +126,7 @@ def rule_fold(ctx):
                 divisors.append(src[3])
                 src = src[2]
             red = None
+            src = as_method(src)
             if src[0] == 'meth' and src[1] in ('sum', 'mean', 'toarray', 'todense'):
                 red = (src[1], dict(src[4]).get('axis', src[3][0] if src[3] else None))
                 src = src[2]
